@@ -202,6 +202,9 @@ def random_config(rng, closed=True):
                seed=rng.choice([0, 1, 2 ** 40 + 7]) if rng.random() < 0.08 else rng.randrange(10 ** 6), start_fragment=rng.choice([None, None, 'U0']),
                target_units=rng.choice([1, 2, 5, 12, 40]))
     feats = {'all_atom' if all_atom else 'coarse', 'poly_' + mode, 'nfrag_%d' % len(frags)}
+    if rng.random() < 0.3:
+        cfg['via'] = 'dict'
+        feats.add('constructor_with_shared_fragment_dict')
     if masses and rng.random() < 0.5:
         # given masses are multiples of 0.5, so sums are exact floats and a target that is itself such a sum can be
         # hit EXACTLY by the running weight: the documented loop stops there
@@ -222,12 +225,25 @@ def random_config(rng, closed=True):
     return cfg
 
 
+DICTS = {}      # fragment string -> fragment dictionary read once and shared by every sampler built from it
+
+
 def make_sampler(cfg):
     from cgsmiles import MoleculeSampler
     kw = dict(polymer_reactivities=cfg['polymer_reactivities'], fragment_reactivities=cfg['fragment_reactivities'],
               terminal_bonds=list(cfg['terminal_bonds']), all_atom=cfg['all_atom'], seed=cfg['seed'])
     if cfg['fragment_masses']:
         kw['fragment_masses'] = dict(cfg['fragment_masses'])
+    if cfg.get('via') == 'dict':
+        # the constructor itself, with a fragment dictionary the caller keeps (and hands to the next sampler as well)
+        lib = DICTS.get(cfg['frag_string'])
+        if lib is None:
+            import cgsmiles
+            lib = DICTS.setdefault(cfg['frag_string'], cgsmiles.read_fragments(cfg['frag_string'], all_atom=cfg['all_atom']))
+            if len(DICTS) > 50:
+                DICTS.pop(next(iter(DICTS)))
+        poly = kw.pop('polymer_reactivities')
+        return MoleculeSampler(lib, poly, **kw)
     return MoleculeSampler.from_fragment_string(cfg['frag_string'], **kw)
 
 
